@@ -1562,10 +1562,28 @@ func C09Inbound(rt *C09Router, from *C09Peer, in *C09Obs, clusterIDs []netip.Add
 		return C09Either, "own-router-id-as-originator-over-ebgp"
 	}
 	if in.HasCluster {
+		// "The local cluster-id" (RFC 4456 7/8 knows one CLUSTER_ID per reflector; gobgp configures it per
+		// RR-client neighbour, default router id):
+		//  - on a client session it is the id configured for that session;
+		//  - on a non-client iBGP session it is the router's cluster id when all its clients share one;
+		//  - an id configured only on another neighbour of a router that reflects under several ids is not
+		//    clearly "the" local cluster-id of the receiving session: left open.
+		var distinct []netip.Addr
 		for _, c := range clusterIDs {
+			if !c09Has(distinct, c) {
+				distinct = append(distinct, c)
+			}
+		}
+		switch {
+		case from.Kind == C09RRClient && c09Has(in.ClusterList, from.EffClusterID(rt)):
+			return C09Must, "own-cluster-id"
+		case from.Kind == C09IBGP && len(distinct) == 1 && c09Has(in.ClusterList, distinct[0]):
+			return C09Must, "own-cluster-id-nonclient-session"
+		}
+		for _, c := range distinct {
 			if c09Has(in.ClusterList, c) {
 				if from.Kind.Internal() {
-					return C09Must, "own-cluster-id"
+					return C09Either, "cluster-id-of-another-neighbour"
 				}
 				return C09Either, "own-cluster-id-over-ebgp"
 			}
